@@ -281,6 +281,41 @@ func checkC04(c *Check) {
 	slot := slice + "[rk(p1.OCSPServer)]"
 	var badSt []string
 	nst := 0
+	// the same accumulation written with append: failed = append(failed, result)
+	isAccAppend := func(l Label) bool {
+		return l.Kind == "assign" && l.T2 != nil && l.T2.Op == "call" && l.T2.Name == "append" && len(l.T2.Args) == 2 && l.T2.Args[0].Op == "self" && l.T != nil && l.T.V != nil && l.T.V.Obj != nil && l.Node != nil && l.Node.Note != "ret"
+	}
+	appendForm := false
+	for _, s := range spg.States {
+		for _, e := range s.Out {
+			for _, l := range e.Labels {
+				if !isAccAppend(l) {
+					continue
+				}
+				if _, ok := c.search(spg, []*PState{spg.Entry}, inSet([]*PState{s}), nil); !ok {
+					continue
+				}
+				v := l.T2.Args[1]
+				cl, ok := resultClass(v)
+				if !ok {
+					continue // not a server result (some other list)
+				}
+				appendForm = true
+				nst++
+				okSt := cl == resUnknown
+				if okSt && v.Op == "addr" {
+					if er := structGet(v.Args[0], "Error"); er != nil {
+						if dt, k := dynType(er); k && dt == "ncg/revocation/internal/ocsp.UnknownStatusError" {
+							okSt = false
+						}
+					}
+				}
+				if !okSt {
+					badSt = append(badSt, c.P.pos(l.Node.Pos)+": "+l.String())
+				}
+			}
+		}
+	}
 	for _, s := range spg.States {
 		for _, e := range s.Out {
 			for _, l := range e.Labels {
@@ -306,7 +341,17 @@ func checkC04(c *Check) {
 		}
 	}
 	c.add("O-C04.4", "only non-decisive results are accumulated", "a server result is kept for the aggregate (and the next server asked) only if it is Unknown and not an unknown-status answer: OK, Revoked and unknown-status answers end the loop at once", len(badSt) == 0 && nst > 0, "", badSt...)
-	c.perIteration(spg, "O-C04.4", "every non-decisive server result is recorded in its slot", "an iteration that goes on to the next server records its result at the server's index", "p1.OCSPServer", StoreTo(slot))
+	if appendForm {
+		c.perIteration(spg, "O-C04.4", "every non-decisive server result is recorded in its slot", "an iteration that goes on to the next server appends its result to the accumulated list", "p1.OCSPServer", LP{Desc: "append the server result", F: func(l Label) bool {
+			if !isAccAppend(l) {
+				return false
+			}
+			_, ok := resultClass(l.T2.Args[1])
+			return ok
+		}})
+	} else {
+		c.perIteration(spg, "O-C04.4", "every non-decisive server result is recorded in its slot", "an iteration that goes on to the next server records its result at the server's index", "p1.OCSPServer", StoreTo(slot))
+	}
 	c.mustPass(spg, "O-C04.4", "aggregate only after all servers", "the aggregated (non-decisive) result", final, RangeDone("p1.OCSPServer"))
 	c.onlyAfterExhaustion(spg, "O-C04.4", "no aggregate from inside the loop", "the aggregated result", "p1.OCSPServer", final)
 	// a decisive per-server result returns at once: after an OK/Revoked server result no further server is asked
